@@ -3,16 +3,17 @@ import RJson.Gen.Facts
 # The constants the hand models copy from the hand-written Go are the constants of the current source
 
 `gofacts` lists, for every function of the hand-written Go (internal/fp, simple_readers.go, token.go,
-machine_helpers.go, complex_readers.go, decode.go, rjson.go), its integer / float / character literals (sorted, so that
-reordering statements does not matter; strings such as error texts are left out). The hand models in `Model/*.lean`
+machine_helpers.go, complex_readers.go, decode.go, rjson.go), its integer / float / character literals and, behind `;;`, its operators and jump statements (`<`, `>=`, `+=`,
+`break`, `return`, …; unary ones prefixed with `u`) — each list sorted, so that reordering statements does not matter; strings
+such as error texts are left out. The hand models in `Model/*.lean`
 were written against exactly these constants — `310` / `330` in `floatBits`, `22` and `15` in `atof64exact`, `0x1f` in
-the string readers, the digit bounds of the integer readers, ... A changed, added or removed literal fails the
+the string readers, the digit bounds of the integer readers, ... A changed, added or removed literal or operator (a `<` that became `<=`, a dropped `break`) fails the
 comparison below on the next run, before any input is tried; named constants and tables are regenerated separately
 (`Gen/Tables.lean`).
 -/
 namespace RJson.Literals
 
 theorem literalsToken_expected : Gen.Facts.literalsToken =
-    [("NextToken", "0 0 0 0 0 0 0 0 1 1 1 1"), ("NextTokenType", "0 0 0 0 0 0 1 1 1"), ("TokenType.String", ""), ("nextTokenCompat", "'\"' '\"' 'f' 'n' 't' 0 0 0 0 1 1 1 1 1"), ("nextTokenTypeCompat", "'\"' 0 0 1 1 1 1 1 1")] := by decide +kernel
+    [("NextToken", "0 0 0 0 0 0 0 0 1 1 1 1 ;; != + + == == >= return return return return return return u!"), ("NextTokenType", "0 0 0 0 0 0 1 1 1 ;; != + == >= return return return return return u!"), ("TokenType.String", " ;; == return"), ("nextTokenCompat", "'\"' '\"' 'f' 'n' 't' 0 0 0 0 1 1 1 1 1 ;; != + + + + + ++ - - - - == >= break return return return return return return return return return return return"), ("nextTokenTypeCompat", "'\"' 0 0 1 1 1 1 1 1 ;; != != + + + + + + ++ - - - - == == >= break return return return return return return return return return return return")] := by decide +kernel
 
 end RJson.Literals
